@@ -173,6 +173,30 @@ def main(argv):
         results = {u: f.result() for u, f in futs.items()}
         canaries = {u: f.result() for u, f in cfuts.items()}
 
+    thorough = {}
+    if tier == "thorough" and not update:
+        from . import mutants as M
+        for u in units:
+            r = results[u]
+            if r.meta is None:
+                continue
+            # (a) per-function `ensures false` canary: one function per run (a false
+            #     postcondition would poison the callers), functions serving this property only
+            fids = sorted({o["fn"] for o in r.obligations if prop in (o["props"] or [])})
+            vac2 = []
+            with cf.ThreadPoolExecutor(max_workers=12) as ex:
+                futs = {fid: ex.submit(canary_run, u, fid) for fid in fids}
+                for fid, f in futs.items():
+                    ok, vac, reason = f.result()
+                    if ok and vac:
+                        vac2.extend(vac)
+            # (b) contract-strength mutants of the extracted bodies
+            try:
+                mres = M.mutation_run(u, limit=int(os.environ.get("SOSV_MUTANTS", "48")), seed=seed)
+            except Exception as e:
+                mres = dict(error=str(e))
+            thorough[u] = dict(ensures_false_canary=dict(functions=len(fids), verified_false=vac2), contract_mutation=mres)
+
     undecided = []
     all_obl = []
     for u, r in results.items():
@@ -191,6 +215,9 @@ def main(argv):
         for fid in vac:
             if fid in served:
                 vacuous.append("%s::%s" % (u, fid))
+    for u, t in thorough.items():
+        for fid in t["ensures_false_canary"]["verified_false"]:
+            vacuous.append("%s::%s (callee contracts contradictory: `ensures false` verified)" % (u, fid))
     if vacuous:
         undecided.append("vacuous contract (canary `ensures false` verified) in: " + ", ".join(vacuous[:5]))
 
@@ -285,6 +312,7 @@ def main(argv):
             extraction_rules=rules,
             units=units,
             canary="every function under contract re-verified with an added `ensures false`: each must fail; vacuous=%s" % vacuous,
+            thorough=thorough,
             explanation=cfgp.get("explanation", ""),
             bounded_checks=cfgp.get("bounded_checks", []),
             observations=cfgp.get("observations", []),
